@@ -6,7 +6,9 @@ Case kinds
   act     one completion through a real generation *action* (FakeLLM serving it) vs the model's post-processing
   botmsg  generate_bot_message with predefined / context-variable / LLM branches, `_render_string` instrumented
   e2e     hostile completions at every LLM call position of multi-turn conversations through the real
-          `LLMRails.generate`, all generation modes (search territory: oracle only, no model)
+          `LLMRails.generate`, all generation modes (search territory: oracle only, no model); includes the
+          stored-then-quoted family: LLM text that is stored (last bot message, generated value, action result) and quoted
+          in a LATER step/turn by a predefined message (`$var`, `{{ var }}`), a `bot $var` step or a 2.x `bot say $v`
 Static tie: ast scan of both generation.py files for every call of a render function and the provenance of its argument.
 """
 import ast
@@ -17,6 +19,7 @@ import json
 import os
 import re
 import sys
+import warnings
 
 from ..impl import c17_env as E
 from ..translate.util import TieBroken, find_def, parse
@@ -27,7 +30,8 @@ EXHAUSTIVE = {"quick": False, "thorough": False}
 RULE = ("fn/act: structured completions (lines built from Colang/verbose prefixes, quotes, comments, separators incl. every Unicode "
         "line boundary and whitespace class, template/variable syntax, escape_flow_name keywords) plus a malformed stream over a "
         "hostile alphabet; e2e: every base conversation of every mode (dialog, single_call, multi_step, general, passthrough, "
-        "v2 intent/flow/value/utterance) with a hostile or mutated completion at each LLM call position. non-trivial = the text has "
+        "v2 intent/flow/value/utterance, and the stored-then-quoted conversations dialog_q/single_call_q/v2_quote) with a hostile or mutated completion at each LLM call position; "
+        "quote family: a marked payload of template/variable/escape tokens at the position whose text is stored and later quoted. non-trivial = the text has "
         ">= 2 lines or a recognised prefix/quote/template token (fn/act), or a hostile completion was actually consumed (e2e); "
         "distinct = distinct case JSON.")
 TRUSTED_BASE = [
@@ -285,11 +289,69 @@ def base_conversations():
         ("v2_flowgen", ["tell me a joke", "another"], ["user asked for a joke", "bot intent: bot tell joke\nbot action: bot say \"Why?\"", "user asked again", "bot intent: bot tell another\nbot action: bot say \"Because.\""], [], "bot action: bot say \"fb\""),
         ("v2_value", ["I like trains", "ok"], ["\"trains\""], [0], "\"fb\""),
         ("v2_utter", ["tell me a joke", "more"], ["user intent: user asked for joke\nbot intent: bot tell joke\nbot action: bot say \"Why?\"", "user intent: user asked more\nbot intent: bot tell more\nbot action: bot say \"More.\""], [], "bot action: bot say \"fb\""),
-    ]
+    ] + [(mode, turns, script, [store], fb) for mode, turns, script, store, _wrap, fb in QUOTE_BASES]
+
+
+# ---- stored-then-quoted family ---------------------------------------------------------------------------------------------
+# (mode, user turns, cooperative completions, position whose text is STORED, wrapper of the payload at that position, fallback)
+QUOTE_BASES = [
+    # the LLM-written reply of turn 1 is quoted by `$last_bot_message` (turn 2), `{{ last_bot_message }}` (turn 3: a quote of the quote) and again
+    ("dialog_q", ["zzz", "can you repeat that", "once more", "can you repeat that"],
+     ["  ask something", "bot inform thing", "  \"It is fine.\"", "  ask to repeat", "  ask to repeat again", "  ask to repeat"], 2, "  \"%s\"", "  \"fb\""),
+    # a generated value quoted in the same turn (`$name`), then by `{{ last_bot_message }}` + `$name` in a later turn
+    ("dialog_q", ["my name is John", "recap", "can you repeat that"], ["  introduce self", "\"John\"", "  ask recap", "  ask to repeat"], 1, "\"%s\"", "\"fb\""),
+    ("dialog_q", ["my name is John", "once more"], ["  introduce self", "'John'", "  ask to repeat again"], 1, "'%s'", "\"fb\""),
+    # `bot $name`: the value is the whole message; quoted afterwards
+    ("dialog_q", ["say my name", "can you repeat that", "recap"], ["  ask raw name", "\"John\"", "  ask to repeat", "  ask recap"], 1, "\"%s\"", "\"fb\""),
+    # the result of an action that returns LLM text
+    ("dialog_q", ["look it up", "once more"], ["  ask lookup", "Lookup text.", "  ask to repeat again"], 1, "%s", "fb"),
+    ("single_call_q", ["zzz", "can you repeat that", "once more"],
+     ["  ask something\nbot inform thing\n  \"It is fine.\"", "  ask to repeat\nbot repeat last message\n  \"unused\"", "  ask to repeat again\nbot repeat last message again\n  \"unused\""],
+     0, "  ask something\nbot inform thing\n  \"%s\"", "  ask x\nbot y\n  \"fb\""),
+    ("single_call_q", ["my name is John", "recap"], ["  introduce self\nbot greet by name\n  \"unused\"", "\"John\"", "  ask recap\nbot recap\n  \"unused\""], 1, "\"%s\"", "\"fb\""),
+    ("v2_quote", ["a", "b", "c"], ["\"trains\""], 0, "\"%s\"", "\"fb\""),
+]
+QUOTE_TOKENS = [SENT_EXPR, "{{ 7*7 }}", "{{ secret }}", "{{secret}}", "{{ last_user_message }}", "{{ last_bot_message }}", "{{ name }}", "{% for x in y %}", "{% if 1 %}EVIL{% endif %}",
+                "{% raw %}", "{# c #}", "{{", "}}", "{%", "%}", "$secret", "$name", "$last_bot_message", "$other_var", "$x", "{$secret}", "{$x}", "${{secret}}", "${secret}", "$secret.x", "$lst[0]",
+                SENT_V2, "{$v}", "\\", "\\\\", "\\t", "\\x41", "\\u0041", "'", "it's", "`", "<b>", "&amp;", "%s", "%(x)s", "{}", "{0}", "#", "50%", "a_b"]
+QUOTE_WORDS = ["use", "or", "in a template", "hello", "x", "1337?", "é", "名前"]
+
+
+def g_payload(rng):
+    """a marked message text made of template / variable / escape tokens (no newline, no double quote: it must survive the
+    first-line and strip_quotes post-processing of every position unchanged, so that `literally` is decidable)"""
+    n = rng.choice([1, 1, 2, 2, 3, 4])
+    parts = []
+    for _ in range(n):
+        if rng.random() < 0.35:
+            parts.append(rng.choice(QUOTE_WORDS))
+        parts.append(rng.choice(QUOTE_TOKENS))
+    return MARK_L + " " + " ".join(parts) + " " + MARK_R
+
+
+def gen_quote(rng, n):
+    out = []
+    for i in range(n):
+        mode, turns, script, store, wrap, fb = QUOTE_BASES[i % len(QUOTE_BASES)]
+        resp = list(script)
+        payload = g_payload(rng)
+        if "'" in payload and wrap.startswith("'"):
+            wrap = "\"%s\""
+        resp[store] = wrap % payload
+        pos = [store]
+        if rng.random() < 0.15:
+            # a second hostile completion somewhere else in the same conversation
+            p2 = rng.randrange(len(script))
+            if p2 != store:
+                resp[p2] = rng.choice(HOSTILE[:120]) if rng.random() < 0.5 else mutate(rng, script[p2])
+                pos = sorted(pos + [p2])
+        out.append({"kind": "e2e", "mode": mode, "turns": turns, "llm": resp, "fallback": fb, "pos": pos, "msgpos": [store], "quote": True})
+    return out
 
 
 def gen_cases(rng, tier):
     n_fn, n_act, n_bot, n_e2e = (30000, 2000, 500, 300) if tier == "quick" else (200000, 16000, 4000, 4000)
+    n_quote = 160 if tier == "quick" else 2400
     cases = [{"kind": "ws"}]
     parsers = ["none", "none", "user_intent", "bot_intent", "bot_message", "verbose_v1"]
     for _ in range(n_fn):
@@ -304,6 +366,7 @@ def gen_cases(rng, tier):
     for _ in range(n_bot):
         cases.append(g_botmsg(rng))
     cases.extend(gen_e2e(rng, n_e2e))
+    cases.extend(gen_quote(rng, n_quote))
     return [c for c in cases if c["kind"] != "act" or len(c["s"]) <= 4000]
 
 
@@ -831,6 +894,39 @@ def _content_of(mode, reply):
     return isinstance(c, str), c if isinstance(c, str) else ""
 
 
+_SEG_RE = re.compile(re.escape(MARK_L) + r".*?" + re.escape(MARK_R), re.S)
+
+
+def _marked_segments(case):
+    want = set()
+    for x in case["llm"] + [case["fallback"]]:
+        if MARK_L not in x:
+            continue
+        cands = [x]
+        for y in [x.strip()] + [ln.strip() for ln in x.splitlines()]:
+            if y[:1] in ("\"", "'"):
+                try:
+                    with warnings.catch_warnings():
+                        warnings.simplefilter("ignore")
+                        v = ast.literal_eval(y)
+                    if isinstance(v, str):
+                        cands.append(v)
+                except Exception:  # noqa
+                    pass
+        for c in cands:
+            want.update(_SEG_RE.findall(c))
+    return want
+
+
+def _quoted_part(text):
+    """the part of a reply of the quote configuration that stands for `last_bot_message` (None: not such a reply)"""
+    if text.startswith(E.QUOTE_PREFIX):
+        return text[len(E.QUOTE_PREFIX):]
+    if text.startswith(E.QUOTE2_PREFIX) and text.endswith(E.QUOTE2_SUFFIX) and len(text) >= len(E.QUOTE2_PREFIX) + len(E.QUOTE2_SUFFIX):
+        return text[len(E.QUOTE2_PREFIX): len(text) - len(E.QUOTE2_SUFFIX)]
+    return None
+
+
 def _has_sentinel_syntax(case):
     return any(any(t in x for t in (SENT_EXPR, "secret", "191*7")) for x in case["llm"] + [case["fallback"]])
 
@@ -882,16 +978,24 @@ def oracle(case, obs):
                 return f"evaluated:turn {t}: template/interpolation expression (191*7) from an LLM completion was evaluated: reply {text[:200]!r}"
             if E.SECRET in text:
                 return f"evaluated:turn {t}: variable syntax from an LLM completion was dereferenced: the reply contains the value of $secret: {text[:200]!r}"
-        # literal pass-through of marked message text
+        # literal pass-through of marked message text: EVERY marked segment of the reply is a marked segment of an LLM completion
+        # (as written, or as the Python string literal it denotes: generated values go through literal_eval)
         if MARK_L in text:
-            seg = text[text.index(MARK_L): text.index(MARK_R) + len(MARK_R)] if MARK_R in text[text.index(MARK_L):] else None
-            srcs = [x for x in case["llm"] + [case["fallback"]] if MARK_L in x]
-            want = set()
-            for x in srcs:
-                for mm in re.finditer(re.escape(MARK_L) + r".*?" + re.escape(MARK_R), x, re.S):
-                    want.add(mm.group(0))
-            if want and seg not in want:
-                return f"rewritten:turn {t}: marked LLM message text came back altered: {seg!r} not in {sorted(want)!r}"
+            want = _marked_segments(case)
+            segs = _SEG_RE.findall(text)
+            if want and not segs:
+                return f"rewritten:turn {t}: marked LLM message text came back altered: {None!r} not in {sorted(want)!r}"
+            for seg in segs:
+                if want and seg not in want:
+                    return f"rewritten:turn {t}: marked LLM message text came back altered: {seg!r} not in {sorted(want)!r}"
+        # stored-then-quoted: a predefined message that quotes `last_bot_message` shows the previous reply literally
+        if mode in ("dialog_q", "single_call_q") and t >= 1 and isinstance(text, str):
+            q = _quoted_part(text)
+            prev = _content_of(mode, obs["turns"][t - 1]["reply"])[1] if "reply" in obs["turns"][t - 1] else None
+            if q is not None and isinstance(prev, str) and prev != "":
+                tails = {prev} | {prev[i + 1:] for i, ch in enumerate(prev) if ch == "\n"}
+                if q not in tails:
+                    return f"rewritten:turn {t}: the predefined message quotes the previous bot message, but not literally: quoted {q[:160]!r}, previous reply {prev[:160]!r}"
     return None
 
 
@@ -913,17 +1017,41 @@ def signature(case, obs, msg):
                     return f"{cls}:{mode}:generate_events:too-many-events"
                 return f"{cls}:{mode}:{rec.get('where', '?')}:{rec.get('exc_type', 'hang')}"
         return f"{cls}:{mode}:?"
+    bad = _bad_turn_text(case, obs, msg)
     if cls == "evaluated":
-        if mode in ("dialog", "single_call", "multi_step") and "$secret" in (msg or "") and any(re.search(r"(^|\n)\s*(bot|Bot intent:)\s+\$secret", x) for x in case["llm"] + [case["fallback"]]):
+        # known: the LLM predicted the bot INTENT `$secret`; generate_bot_message answers with the variable's value - the whole
+        # message is that value.  Anything else that makes the secret / 1337 appear (a quote, a rendered template) is a new class.
+        if (mode in ("dialog", "single_call", "multi_step", "dialog_q", "single_call_q") and "$secret" in (msg or "") and bad is not None and bad.strip() == E.SECRET
+                and any(re.search(r"(^|\n)\s*(bot|Bot intent:)\s+\$secret", x) for x in case["llm"] + [case["fallback"]])):
             return "evaluated:v1:llm-bot-intent-context-var"
         if mode in ("v2_flowgen", "v2_utter", "v2_intent"):
             return "evaluated:v2:generated-flow-interpolation"
         return f"evaluated:{mode}"
     if cls == "rewritten":
-        if mode.startswith("v2"):
-            return "rewritten:v2:interpolation-of-llm-text"
+        if mode in ("v2_flowgen", "v2_utter", "v2_intent"):
+            return "rewritten:v2:interpolation-of-llm-text"  # the LLM wrote the flow: its text is a string literal of Colang source
+        if mode in ("v2_value", "v2_quote"):
+            # known: the flow author interpolates a generated value (`"got: {$v}"`, `"again: {$v}"`) and eval_expression re-reads it.
+            # A generated value uttered without interpolation (`bot say $v`) must come back literally: a different class.
+            if bad is not None and any(ln.startswith(pre) for ln in bad.split("\n") for pre in V2_INTERPOLATION_PREFIXES if MARK_L in ln):
+                return "rewritten:v2:interpolation-of-llm-text"
+            return f"rewritten:{mode}:not-interpolated"
         return f"rewritten:{mode}"
     return f"{cls}:{mode}"
+
+
+V2_INTERPOLATION_PREFIXES = ["got: ", "again: "]
+
+
+def _bad_turn_text(case, obs, msg):
+    """text of the reply of the turn the oracle message names"""
+    m = re.match(r"\w+:turn (\d+):", msg or "")
+    if not m:
+        return None
+    t = int(m.group(1))
+    if t < len(obs.get("turns", [])) and "reply" in obs["turns"][t]:
+        return _content_of(case["mode"], obs["turns"][t]["reply"])[1]
+    return None
 
 
 def nontrivial(case, obs):
@@ -969,6 +1097,10 @@ def tags(case, obs):
             else:
                 ok, text = _content_of(case["mode"], rec["reply"])
                 t.append("reply:" + ("internal-error" if FIXED_REPLIES[0] in text else "not-sure" if FIXED_REPLIES[1] in text else "silent" if text == "" else "text"))
+                if case["mode"] in ("dialog_q", "single_call_q") and _quoted_part(text) is not None:
+                    t.append("quoted:last_bot_message" + (":marked" if MARK_L in text else ""))
+                elif case.get("quote") and MARK_L in text:
+                    t.append("quoted:marked-text-in-reply")
     return t
 
 
@@ -1007,4 +1139,5 @@ def escalate(rng, focus, tier):
                 cases.append({"kind": "e2e", "mode": mode, "turns": turns, "llm": resp, "fallback": fb, "pos": [pos], "msgpos": msgpos})
     for _ in range(n):
         cases.append(g_botmsg(rng))
+    cases = gen_quote(rng, n // 2) + cases
     return cases
